@@ -1,7 +1,8 @@
 (* C01, payload clause at full strength for the harness payload (colour, id list) with the NON-commutative reduction
    "keep the accumulator's colour, append the other's ids": C01_node_facts proves the fold order seed, left path (from
    the seed outwards), right path.  Read on a node of n k-mers whose seed sits at offset p this means: the ids are those
-   of the k-mers at offsets p, p-1, ..., 0, p+1, ..., n-1 and the colour is the seed's.  [chk_payload_order] decides
+   of the k-mers at offsets p, p-1, ..., 0, p+1, ..., n-1 and the colour is the seed's; the seed is the node's first k-mer
+   in table order (so a fold that starts from another k-mer of the node, e.g. reduce(kmer, acc), is rejected).  [chk_payload_order] decides
    exactly that on an implementation output (every table entry carries one unique id).  Not proved sound in Coq: it
    is a direct reading of the proved fold order; a failure is reported with the input as a failing case of C01. *)
 From Coq Require Import NArith List Bool Arith.
@@ -27,9 +28,18 @@ Definition chk_payload_order (K : nat) (stranded : bool) (T : table pay) (nodes 
     let offs := map (fun id => match ent_of id with
                                | Some e => index_where (dna_eqb (e_key pay e)) ks
                                | None => None end) ids in
+    (* position in the table (= iteration order = slot id) of the entry carrying [id] *)
+    let pos_of (id : N) := index_where (fun e => N_list_eqb (snd (e_data pay e)) [id]) T in
     match offs, ids with
-    | Some p :: _, id0 :: _ =>
+    | Some p :: _, id0 :: rest =>
         olist_eqb offs (map Some (expected_order p (length ks))) &&
-        match ent_of id0 with Some e => fst (e_data pay e) =? fst (snd n) | None => false end
+        match ent_of id0 with Some e => fst (e_data pay e) =? fst (snd n) | None => false end &&
+        (* the seed (first payload of the fold) is the node's FIRST k-mer in table order: the outer loop of
+           compress_kmers visits the slots in order and seeds a node at the first slot that is still available, and
+           every k-mer of the node was available then *)
+        match pos_of id0 with
+        | Some i0 => forallb (fun id => match pos_of id with Some i => Nat.ltb i0 i | None => false end) rest
+        | None => false
+        end
     | _, _ => false
     end) nodes.
